@@ -6,7 +6,7 @@ import shutil
 from . import tlc, netrun, sessrun
 from .par import pmap
 
-CLAUSES = {"C07": ["Safe", "Quiescence"], "C09": ["T1", "T2", "T4", "Safe", "Quiescence"]}
+CLAUSES = {"C07": ["Safe", "Quiescence", "Stays"], "C09": ["T1", "T2", "T4", "Safe", "Quiescence", "Stays"]}
 
 
 def net_cfg(ms, mb, mr, depth, dump, props=True, lag="FALSE"):
@@ -14,7 +14,7 @@ def net_cfg(ms, mb, mr, depth, dump, props=True, lag="FALSE"):
          " MaxSends = %d\n MaxBreaks = %d\n MaxRestarts = %d\n Depth = %d\n Dump = %s\nVIEW View\nCONSTRAINT Bound\n"
          % (lag, ms, mb, mr, depth, "TRUE" if dump else "FALSE"))
     if props:
-        s += "INVARIANT Safe\nINVARIANT Quiescence\nINVARIANT T2\nINVARIANT T4\nPROPERTY T1\n"
+        s += "INVARIANT Safe\nINVARIANT Quiescence\nINVARIANT T2\nINVARIANT T4\nPROPERTY T1\nPROPERTY Stays\n"
     if dump:
         s += "INVARIANT Inv_DumpState\n"
     return s + "CHECK_DEADLOCK FALSE\n"
@@ -28,6 +28,24 @@ def settle(n=14):
     evs += [{"t": "eof", "e": "I"}, {"t": "eof", "e": "A"}, {"t": "reconnect"}]
     evs += [{"t": "deliver", "dir": d} for d in ("IA", "AI") * n]
     return evs
+
+
+def recovery_windows(depth):
+    """Both directions lose an application frame in one break; after reconnect + Logon every interleaving of the next
+    `depth` deliveries with at most one further application send at any position (the recovery of one side overlaps
+    the recovery of the other and new traffic)."""
+    import itertools
+    pre = [{"t": "reconnect"}, {"t": "deliver", "dir": "IA"}, {"t": "deliver", "dir": "AI"},
+           {"t": "send", "e": "I", "pay": "11=i1"}, {"t": "send", "e": "A", "pay": "11=a1"},
+           {"t": "break", "ki": 0, "ka": 0}, {"t": "eof", "e": "I"}, {"t": "eof", "e": "A"}, {"t": "reconnect"}]
+    out = []
+    for dirs in itertools.product(("IA", "AI"), repeat=depth):
+        base = [{"t": "deliver", "dir": d} for d in dirs]
+        out.append(pre + base + settle())
+        for pos in range(depth):
+            for e in ("I", "A"):
+                out.append(pre + base[:pos] + [{"t": "send", "e": e, "pay": "11=%s2" % e.lower()}] + base[pos:] + settle())
+    return out
 
 
 def random_walk(rng, n, restarts):
@@ -131,6 +149,9 @@ def run(ctx, out, prop):
         nr = 600 if q else 12000
         for i in range(nr):
             specs.append({"id": "w%d" % i, "evs": random_walk(rng, rng.randint(10, 120), rest), "jdir": jdir})
+        if not rest:
+            for i, evs in enumerate(recovery_windows(6 if q else 9)):
+                specs.append({"id": "rw%d" % i, "evs": evs, "jdir": jdir})
         ctx.log("executing %d two-endpoint traces on real AsyncFIXClient/AsyncFIXDummyServer objects" % len(specs))
         recs = pmap(netrun.run_trace, specs)
     finally:
